@@ -1,4 +1,5 @@
 //! msverif: runtime monitors for rust-miniscript (see /verif/DESIGN.md).
+pub mod astbuild;
 pub mod frag;
 pub mod monitors;
 pub mod pol;
